@@ -25,6 +25,7 @@ def gen_config(rng, thorough, cls=None):
         # it is chosen so that it becomes the speaker within the first 10 s, and the run is long enough to see what happens after that
         count = rng.choice([4, 5, 6, 7])
         blocked = rng.choice([1, 2, 3])
+        txblock, txcount = 3, 2000  # proposals of three transactions in every tier (seeded change C17k needs >= 3 per block)
     elif cls == "single":
         count = 1  # a lone validator decides inside Start()/OnTimeout(), never inside OnReceive()
     elif cls == "empty":
@@ -34,7 +35,7 @@ def gen_config(rng, thorough, cls=None):
     elif cls == "large":
         # a large committee: the speaker of one round hears more backups than the default shape produces in minutes
         # (the round-trip estimator's 70-slot ring wraps in the first round; seeded change C17j)
-        count, watchers, txblock, txcount = rng.choice([72, 76, 80]), 0, 1, 200
+        count, watchers, txblock, txcount = rng.choice([72, 76, 80]), 0, rng.choice([1, 3]), 200
     procs = rng.choice([1, 2, 4, 16])
     dur = rng.choice([17, 19, 22] if not thorough else [17, 22, 25, 31])
     if cls == "large":
